@@ -655,13 +655,23 @@ def check_history(ctx, RN, A, cid):
         switch = np.iscomplexobj(rn) != np.iscomplexobj(r)
         arg = rn.copy()
         as_list = bool(rng.random() < 0.15)
+        inplace = False
         if as_list:
             arg = arg.tolist()
+        elif rng.random() < 0.2 and isinstance(net.resistances, np.ndarray) \
+                and net.resistances.shape == rn.shape and \
+                net.resistances.dtype == rn.dtype:
+            # the caller edits the array it handed over earlier in place and
+            # passes the same object again
+            inplace = True
+            arg = net.resistances
+            arg[...] = rn
+            ctx.count("history_inplace_same_object")
         extra = str(rng.choice(["", "update_admittance", "update_R",
                                 "update_admittance+update_R"],
                                p=[.7, .1, .1, .1]))
         hist.append({"warm": warm, "step": step, "list": as_list,
-                     "extra": extra})
+                     "inplace_same_object": inplace, "extra": extra})
 
         def mutate():
             net.update_resistances(arg)
@@ -762,6 +772,10 @@ def run(ctx):
                 A = gg.random_connected(g, 3, nmax if k % 3 else 12)
                 kind = kinds[k % 5] if k % 11 else "wide"
                 r = weight_topology(g, A, kind)
+                if k % 4 == 0:
+                    # other units (mega-/micro-ohm): every law is scale free
+                    r = r * float(g.choice([1e7, 1e-7, 1e4]))
+                    ctx.count("extreme_unit_networks")
                 if kind == "complex" and not cond_ok(r):
                     ctx.count("complex_illconditioned_skipped")
                 else:
